@@ -34,6 +34,9 @@ type Src struct {
 	FailAt  int
 	FailErr error
 	Reads   int
+	// Idle > 0: every Idle-th call returns (0, nil) without data - allowed by io.Reader ("callers should
+	// treat a return of 0 and nil as indicating that nothing happened")
+	Idle int
 }
 
 func NewSrc(data []byte) *Src { return &Src{Data: data, FailAt: -1} }
@@ -55,6 +58,9 @@ func (s *Src) Read(p []byte) (int, error) {
 		return 0, io.EOF
 	}
 	if len(p) == 0 {
+		return 0, nil
+	}
+	if s.Idle > 0 && s.Reads%s.Idle == 0 {
 		return 0, nil
 	}
 	n := len(p)
@@ -129,6 +135,15 @@ func (s *Sink) Write(p []byte) (int, error) {
 	s.Buf = append(s.Buf, p[:room]...)
 	s.Failed = true
 	return room, ErrInjected
+}
+
+// ByteSink is a Sink that also offers WriteByte (like bytes.Buffer and bufio.Writer do), failing at the
+// same offset.
+type ByteSink struct{ *Sink }
+
+func (b ByteSink) WriteByte(c byte) error {
+	_, err := b.Sink.Write([]byte{c})
+	return err
 }
 
 // ---- in-memory duplex connection ---------------------------------------------------------
@@ -301,6 +316,8 @@ type MemFile struct {
 	Data []byte
 	Pos  int64
 	Log  *[]WriteRec
+	// Before, when set, runs before each physical write is applied (a slow disk, a clock that moves on)
+	Before func(off int64, n int)
 }
 
 func (m *MemFile) Read(p []byte) (int, error) {
@@ -313,6 +330,9 @@ func (m *MemFile) Read(p []byte) (int, error) {
 }
 
 func (m *MemFile) writeAt(p []byte, off int64) {
+	if m.Before != nil {
+		m.Before(off, len(p))
+	}
 	if m.Log != nil {
 		*m.Log = append(*m.Log, WriteRec{Off: off, Data: append([]byte{}, p...)})
 	}
